@@ -24,11 +24,19 @@ type MethodCase struct {
 	Group string
 	// SameService: consecutive cases with the same non-empty key are methods of ONE service
 	SameService string
-	// APIPath: HTTP base path of the API (only with Own)
-	APIPath string
 	// SvcPath/SvcPaths: HTTP base path(s) of the service (only with Own)
 	SvcPath  string
 	SvcPaths []string
+	// service-level and API-level HTTP mapping elements the method relies on (families_httpval.go)
+	SvcParams, SvcHeaders, SvcCookies []Map
+	SvcRules                          []MapRule
+	APIParams, APIHeaders, APICookies []Map
+	APIRules                          []MapRule
+	// APIPath: HTTP base path of the API (with Own or DesignKey)
+	APIPath string
+	// SvcKey: consecutive cases with the same non-empty SvcKey share one service, which holds
+	// nothing else; DesignKey: the same for designs
+	SvcKey, DesignKey string
 }
 
 // TypeMenu is the L1 type alphabet: name -> (type, needed definitions).
@@ -301,6 +309,7 @@ func Pack(cases []MethodCase, perService, perDesign int, family string) []*Spec 
 	prevOwn := false
 	prevGroup := ""
 	prevSame := ""
+	prevSvcKey, prevDesignKey := "", ""
 	for _, mc := range cases {
 		sameGroup := mc.Group != "" && mc.Group == prevGroup
 		newGroup := mc.Group != prevGroup
@@ -308,8 +317,13 @@ func Pack(cases []MethodCase, perService, perDesign int, family string) []*Spec 
 		together := mc.SameService != "" && mc.SameService == prevSame
 		newSame := mc.SameService != prevSame
 		prevSame = mc.SameService
-		if !together && (svc == nil || len(svc.Methods) >= perService || mc.Own || prevOwn || mc.Group != "" || newGroup || newSame) {
-			if !sameGroup && (cur == nil || len(cur.Services) >= perDesign || mc.Own || prevOwn || newGroup) {
+		sameSvcKey := mc.SvcKey != "" && mc.SvcKey == prevSvcKey
+		sameDesignKey := mc.DesignKey != "" && mc.DesignKey == prevDesignKey
+		newKey := mc.SvcKey != prevSvcKey || mc.DesignKey != prevDesignKey
+		newDesignKey := mc.DesignKey != prevDesignKey
+		prevSvcKey, prevDesignKey = mc.SvcKey, mc.DesignKey
+		if !together && !sameSvcKey && (svc == nil || len(svc.Methods) >= perService || mc.Own || prevOwn || mc.Group != "" || newGroup || newSame || newKey) {
+			if !sameGroup && !sameDesignKey && (cur == nil || len(cur.Services) >= perDesign || mc.Own || prevOwn || newGroup || newDesignKey) {
 				cur = &Spec{Family: family}
 				out = append(out, cur)
 			}
@@ -349,14 +363,20 @@ func Pack(cases []MethodCase, perService, perDesign int, family string) []*Spec 
 				cur.Schemes = append(cur.Schemes, sc)
 			}
 		}
-		if mc.APIPath != "" {
-			cur.APIPath = mc.APIPath
-		}
 		if mc.SvcPath != "" {
 			svc.Path = mc.SvcPath
 		}
 		if len(mc.SvcPaths) > 0 {
 			svc.Paths = mc.SvcPaths
+		}
+		if len(mc.SvcParams)+len(mc.SvcHeaders)+len(mc.SvcCookies)+len(mc.SvcRules) > 0 {
+			svc.Params, svc.Headers, svc.Cookies, svc.Rules = mc.SvcParams, mc.SvcHeaders, mc.SvcCookies, mc.SvcRules
+		}
+		if len(mc.APIParams)+len(mc.APIHeaders)+len(mc.APICookies)+len(mc.APIRules) > 0 {
+			cur.APIParams, cur.APIHeaders, cur.APICookies, cur.APIRules = mc.APIParams, mc.APIHeaders, mc.APICookies, mc.APIRules
+		}
+		if mc.APIPath != "" {
+			cur.APIPath = mc.APIPath
 		}
 		if mc.SvcSecurity != nil {
 			svc.Security = mc.SvcSecurity
